@@ -181,6 +181,93 @@ func checkC18(r *core.Result) {
 		r.Ob("J2", ctor+" sets opts."+field, prog.Pos(f.Pos()), okStore && len(stores) == 1, fmt.Sprintf("fields stored: %v; the option must store its parameter into %s only", stores, field))
 	}
 	r.Floor("JSON option constructors", nC, 5)
+	// J6: the bytes MarshalJSON returns come from a runtime (or from the message's own MarshalJSON): every
+	// successful return other than the nil-message one returns the result of a call made on the asserted message
+	if f := core.FindFunc(root, "(*jsonMarshaler).MarshalJSON"); f != nil {
+		parents := parentMap(f.Decl.Body)
+		nRet := 0
+		ast.Inspect(f.Decl.Body, func(n ast.Node) bool {
+			ret, ok := n.(*ast.ReturnStmt)
+			if ok && len(ret.Results) == 1 {
+				// return <call returning ([]byte, error)>: must be the delegation to the message's own MarshalJSON
+				if c, isCall := ret.Results[0].(*ast.CallExpr); isCall {
+					nRet++
+					r.Ob("J6", "(*jsonMarshaler).MarshalJSON :: return "+types.ExprString(c)+" delegates to the message", prog.Pos(ret.Pos()), strings.HasSuffix(types.ExprString(c.Fun), ".MarshalJSON"), "a forwarded result must come from the message's own MarshalJSON")
+				}
+				return true
+			}
+			if !ok || len(ret.Results) != 2 || !isNilIdentExpr(ret.Results[1]) {
+				return true
+			}
+			if isNilIdentExpr(ret.Results[0]) {
+				return true // the documented (nil, nil) for a nil message; its position is J5
+			}
+			nRet++
+			okSrc, why := false, "the returned value is not produced by a runtime call"
+			switch v := ret.Results[0].(type) {
+			case *ast.Ident:
+				// b, err := mo.Marshal(msg)
+				obj := info.Uses[v]
+				ast.Inspect(f.Decl.Body, func(m ast.Node) bool {
+					as, ok := m.(*ast.AssignStmt)
+					if !ok || len(as.Rhs) != 1 {
+						return true
+					}
+					for _, l := range as.Lhs {
+						if id, ok := l.(*ast.Ident); ok && (info.Defs[id] == obj || info.Uses[id] == obj) {
+							if c, ok := as.Rhs[0].(*ast.CallExpr); ok {
+								if se, ok := c.Fun.(*ast.SelectorExpr); ok && strings.HasPrefix(se.Sel.Name, "Marshal") {
+									okSrc = true
+								}
+							}
+						}
+					}
+					return true
+				})
+			case *ast.CallExpr:
+				name := types.ExprString(v.Fun)
+				if strings.HasSuffix(name, ".MarshalJSON") {
+					okSrc = true // delegation to the message's own implementation
+				}
+				if strings.HasSuffix(name, ".Bytes") {
+					// buf.Bytes() after jm.Marshal(&buf, msg) in the same region
+					if se, ok := v.Fun.(*ast.SelectorExpr); ok {
+						if id, ok := se.X.(*ast.Ident); ok {
+							bufObj := info.Uses[id]
+							// find the enclosing block and a preceding Marshal(&buf, …) call
+							for cur := ast.Node(ret); cur != nil; cur = parents[cur] {
+								if blk, ok := parents[cur].(*ast.BlockStmt); ok {
+									for _, st := range blk.List {
+										if st.Pos() >= ret.Pos() {
+											break
+										}
+										ast.Inspect(st, func(m ast.Node) bool {
+											if c, ok := m.(*ast.CallExpr); ok {
+												if cse, ok := c.Fun.(*ast.SelectorExpr); ok && cse.Sel.Name == "Marshal" && len(c.Args) >= 1 {
+													if u, ok := c.Args[0].(*ast.UnaryExpr); ok {
+														if bid, ok := u.X.(*ast.Ident); ok && info.Uses[bid] == bufObj {
+															okSrc = true
+														}
+													}
+												}
+											}
+											return true
+										})
+									}
+									if okSrc {
+										break
+									}
+								}
+							}
+						}
+					}
+				}
+			}
+			r.Ob("J6", fmt.Sprintf("(*jsonMarshaler).MarshalJSON :: return %s comes from a runtime marshal call", types.ExprString(ret.Results[0])), prog.Pos(ret.Pos()), okSrc, why+": output that does not come from the owning runtime's JSON encoder is not guaranteed to be accepted by its decoder (well-known types, required fields, options)")
+			return true
+		})
+		r.Floor("successful returns of MarshalJSON", nRet, 4)
+	}
 	// nil tests first
 	for _, mname := range []string{"(*jsonMarshaler).MarshalJSON", "(*jsonUnmarshaler).UnmarshalJSON"} {
 		f := core.FindFunc(root, mname)
